@@ -816,24 +816,27 @@ def impl_scenario(a):
             # the "user" changes the work tree by hand between operations ("on top of any earlier checkout"):
             # [path, kind, payload] with kind rm | file | dir | link; paths are plain relative names inside wt
             for ph, kind, pl in st["set"]:
-                rel = bytes.fromhex(ph)
-                assert rel and not rel.startswith(b"/") and b".." not in rel.split(b"/") and rel.split(b"/")[0] != b".git"
-                tgt = os.path.join(os.fsencode(wt), rel)
-                if os.path.islink(tgt) or os.path.isfile(tgt):
-                    os.unlink(tgt)
-                elif os.path.isdir(tgt):
-                    shutil.rmtree(tgt)
-                if kind != "rm":
-                    os.makedirs(os.path.dirname(tgt), exist_ok=True)
-                if kind == "file":
-                    with open(tgt, "wb") as f:
-                        f.write(bytes.fromhex(pl))
-                elif kind == "dir":
-                    os.makedirs(tgt)
-                    with open(os.path.join(tgt, b"inner"), "wb") as f:
-                        f.write(b"user file\n")
-                elif kind == "link":
-                    os.symlink(bytes.fromhex(pl), tgt)
+                try:
+                    rel = bytes.fromhex(ph)
+                    assert rel and not rel.startswith(b"/") and b".." not in rel.split(b"/") and rel.split(b"/")[0] != b".git"
+                    tgt = os.path.join(os.fsencode(wt), rel)
+                    if os.path.islink(tgt) or os.path.isfile(tgt):
+                        os.unlink(tgt)
+                    elif os.path.isdir(tgt):
+                        shutil.rmtree(tgt)
+                    if kind != "rm":
+                        os.makedirs(os.path.dirname(tgt), exist_ok=True)
+                    if kind == "file":
+                        with open(tgt, "wb") as f:
+                            f.write(bytes.fromhex(pl))
+                    elif kind == "dir":
+                        os.makedirs(tgt)
+                        with open(os.path.join(tgt, b"inner"), "wb") as f:
+                            f.write(b"user file\n")
+                    elif kind == "link":
+                        os.symlink(bytes.fromhex(pl), tgt)
+                except OSError:
+                    pass      # the user could not do that on this disk state
             res.append({"op": "user", "out": "ok", "diff": [], "wt": _wt_listing(wt), "links": [], "old_index": [], "old_head": []})
             continue
         if op == "pull" and os.path.isdir(os.path.join(base, "src")):
@@ -841,6 +844,8 @@ def impl_scenario(a):
             sr = Repo(os.path.join(base, "src"))
             try:
                 sr.refs[b"refs/heads/pullme"] = _commit(sr.object_store, commits[st["t"]][0], [r.refs[b"HEAD"]], b"pull me")
+            except KeyError:
+                pass      # no HEAD commit to build on (the clone failed): the pull will simply fail
             finally:
                 sr.close()
         before = _snap(base)
@@ -1272,15 +1277,17 @@ def classify(step: dict, sr: dict, base: str):
         by_name, by_link = set(), set()
         for p in idx:
             comps = p.split(b"/")
-            if any(c in (b"", b".", b"..") or dotgit_like(c, "b") for c in comps):
-                q = pp.normpath(b"outer/wt/" + p)
-                while q not in (b"", b".", b"outer", b"outer/wt"):
-                    by_name.add(q)
-                    q = pp.dirname(q)
-            elif any(b"/".join(comps[:k]) in links for k in range(1, len(comps))):
+            via_link = any(b"/".join(comps[:k]) in links for k in range(1, len(comps))) and b".." not in comps and b"" not in comps
+            unsafe = any(c in (b"", b".", b"..") or dotgit_like(c, "b") for c in comps)
+            if via_link:
                 q = _resolve_rel(p, links, base)
                 while q and q not in (b"", b".", b"outer", b"outer/wt"):
                     by_link.add(q)
+                    q = pp.dirname(q)
+            elif unsafe:
+                q = pp.normpath(b"outer/wt/" + p)
+                while q not in (b"", b".", b"outer", b"outer/wt"):
+                    by_name.add(q)
                     q = pp.dirname(q)
         touched = {os.fsencode(d[0]) for d in diff}
         if touched <= by_name:
